@@ -125,6 +125,20 @@ def step (st : St) (j : Json) : Except String (St × Json × List Fired) := do
     if ipend.eraseDups.length ≠ ipend.length then
       fired := fired ++ [{ name := "request_queued_for_resolution_twice", detail := mkObj [("pending", jl (ipend.map jn))] }]
     pure (st', (dump st').setObjVal! "err" (js (errCode e)), fired)
+  | "pendingQuery" =>
+    -- the open requests that still wait for this validator's report: chosen for it, not yet reported by it, not expired
+    let v ← jnat j "val"
+    let want := ((List.range s.count).map (· + 1)).filter fun id =>
+      decide (id > s.lastExpired) && match s.requests id with
+        | some req => req.vals.contains v && !(s.reports id).contains v && (s.reports id).length != req.vals.length
+        | none => false
+    let ids ← jnatList out "ids"
+    let mut fired : List Fired := []
+    if (← jstr out "err") == "" then
+      let missing := want.filter (!ids.contains ·)
+      if !missing.isEmpty then
+        fired := fired ++ [{ name := "open_request_missing_from_pending_query", detail := mkObj [("val", jn v), ("missing", jl (missing.map jn)), ("got", jl (ids.map jn))] }]
+    pure (st, mkObj [("err", js ""), ("ids", jl (want.map jn))], fired)
   | "endBlock" =>
     let height ← jint j "height"
     let nowNs ← jint j "now"
@@ -136,6 +150,15 @@ def step (st : St) (j : Json) : Except String (St × Json × List Fired) := do
         return (st, mkObj [("panic", jb false)], [{ name := "end_block_panicked_requests_left_unresolved", detail := mkObj [("err", js ((jstr out "err").toOption.getD "")), ("pending", jl (s.pending.map jn))] }])
       | none => pure ()
     let (ireqs, _, _, ivals) ← parseDump out
+    -- outcomes known from the reports present now (oracle script 4 concatenates the answers)
+    let lineExp : List (Nat × Nat × String) := match j.getObjVal? "expects" with
+      | .ok (.arr xs) => xs.toList.filterMap fun e => match e with
+        | .arr #[a, b, c] => match asNat a, asNat b, asStr c with
+          | .ok x, .ok y, .ok z => some (x, y, z)
+          | _, _, _ => none
+        | _ => none
+      | _ => []
+    let st := { st with expects := st.expects ++ lineExp }
     -- env: the script outcome of each pending id is read from the implementation's result
     let outcome : Nat → Nat × String := fun id =>
       match (ireqs.getD (id - 1) { has := false, reporters := [], res := none }).res with
